@@ -165,3 +165,25 @@ def joint_degree_sequences(N, t, maxdeg, sizes):
     for seq in itertools.product(rows, repeat=N):
         if all(sum(r[k] for r in seq) % sizes[k] == 0 for k in range(t)):
             yield list(seq)
+
+
+def near_complete_graphs(n, max_removed):
+    """K_n minus H for every graph H with <= max_removed edges up to isomorphism (H taken from the networkx atlas,
+    padded with isolated vertices; plus the perfect-matching-like H = disjoint edges that need more than 7 vertices)."""
+    from networkx.generators.atlas import graph_atlas_g
+    hs = []
+    for g in graph_atlas_g():
+        if g.number_of_edges() > max_removed or g.number_of_nodes() > n:
+            continue
+        if g.number_of_nodes() and min(d for _, d in g.degree()) == 0:
+            continue  # isolated vertices are added by padding
+        hs.append(sorted(tuple(sorted(e)) for e in g.edges()))
+    for k in range(4, max_removed + 1):
+        if 2 * k <= n and 2 * k > 7:
+            hs.append([(2 * i, 2 * i + 1) for i in range(k)])
+    out = []
+    allp = pairs(n)
+    for h in hs:
+        hs_ = set(h)
+        out.append([e for e in allp if e not in hs_])
+    return out
